@@ -41,6 +41,7 @@ type spec struct {
 	Yields   [][]int    `json:"yields,omitempty"`
 	Attempts int        `json:"attempts,omitempty"`
 	Burst    *burstSpec `json:"burst,omitempty"` // kind = burst
+	Sia      *siaSpec   `json:"sia,omitempty"`   // kind = sia
 }
 
 func (s spec) replayArg() string {
@@ -529,6 +530,7 @@ type tally struct {
 	shardHist                                                                             map[string]int
 	overlapPairs, reordered, concCases, noLinearisation                                   int
 	burstRounds, burstCalls, burstAnomalies                                               int
+	siaRounds, siaAnomalies                                                               int
 }
 
 var stat = tally{opHist: map[string]int{}, shardHist: map[string]int{}}
@@ -621,6 +623,16 @@ func emitSpec(e *vh.Env, s spec, unresolved *int) {
 		stat.ops += len(steps)
 		stat.shardHist[fmt.Sprintf("shards=%d", s.N)]++
 		e.Emit(wideCase(s, steps))
+	case "sia":
+		n := s.Attempts
+		if n == 0 {
+			n = 1
+		}
+		for i := 0; i < n; i++ {
+			c := siaCase(*s.Sia)
+			c.Replay = spec{Kind: "sia", Sia: s.Sia}.replayArg()
+			e.Emit(c)
+		}
 	case "burst":
 		n := s.Attempts
 		if n == 0 {
@@ -699,7 +711,7 @@ func main() {
 			if s.Kind == "conc" {
 				s.Attempts = 20
 			}
-			if s.Kind == "burst" {
+			if s.Kind == "burst" || s.Kind == "sia" {
 				s.Attempts = 40 // the schedule is the runtime's: repeat the same programs
 			}
 			emitSpec(e, s, &unresolved)
@@ -770,6 +782,16 @@ func main() {
 				emitSpec(e, spec{Kind: "burst", Burst: &b}, &unresolved)
 			}
 		}
+		// SetIfAbsent-only bursts: the first insert wins
+		nSia := e.Scale(24, 400)
+		for _, v := range []string{"std", "tiny"} {
+			for i, m := 0, boost("sia/"+v, nSia); i < m; i++ {
+				b := genSia(e.Rnd, v)
+				emitSpec(e, spec{Kind: "sia", Sia: &b}, &unresolved)
+			}
+		}
+		e.Meta["sia_rounds"] = stat.siaRounds
+		e.Meta["sia_rounds_with_anomaly_seen_by_harness_advisory"] = stat.siaAnomalies
 		e.Meta["burst_rounds"] = stat.burstRounds
 		e.Meta["burst_calls"] = stat.burstCalls
 		e.Meta["burst_rounds_with_anomaly_seen_by_harness_advisory"] = stat.burstAnomalies
